@@ -7,7 +7,7 @@
 \*   KvParse  desc, r, name, args   parseProcedure into a fresh map
 \*   KvChange desc, new, r, out     changeKeyvals
 \*   KvMulti  desc, nested, r, args multipleKeyvals into a fresh map
-\*   DistRT   fam, n, inner, text, r, fam2, n2, cats, cats2, probs, probs2
+\*   DistRT   fam, n, inner, text, r, fam2, n2, cats, cats2, probs, probs2, w, w2 (component weights of a mixture)
 \*   ParamWrite comma, expect, text, r, r2, back    BppOParametrizableFormat::write, read back by multipleKeyvals
 \* The ghost (name, args) follows the chain Make -> Change -> Change ...;
 \* the model invariant RoundTrip is evaluated on the text the implementation
@@ -71,6 +71,8 @@ TDistRT ==
   /\ Ev.r = "ok" /\ Ev.fam2 = Ev.fam /\ Ev.n2 = Ev.n
   /\ Len(Ev.cats) = Ev.n /\ Len(Ev.cats2) = Ev.n /\ Len(Ev.probs) = Ev.n /\ Len(Ev.probs2) = Ev.n
   /\ \A i \in 1..Ev.n : Close(Ev.cats2[i], Ev.cats[i]) /\ Close(Ev.probs2[i], Ev.probs[i])
+  \* the weights of the components of a mixture (w = <<>> for the other families)
+  /\ Len(Ev.w2) = Len(Ev.w) /\ \A i \in DOMAIN Ev.w : Close(Ev.w2[i], Ev.w[i])
   /\ UNCHANGED vars
 
 \* BppOParametrizableFormat::write: "name=value,name=value" (a leading comma on request, parameters already
